@@ -21,6 +21,7 @@ func init() {
 }
 
 func runC17(r *Run) {
+	defer importProcessLocal(r, "RM", "x/feemarket")
 	P := r.P
 	const fk = "x/feemarket/keeper"
 	r.Rule("R1", "OWN: SetBaseFee ← BeginBlock; SetBlockGasWanted ← EndBlock, InitGenesis; AddTransientGasWanted ← GasWantedDecorator (through the FeeMarketKeeper interface); SetTransientBlockGasWanted ← AddTransientGasWanted; feemarket SetParams ← SetBaseFee, InitGenesis, UpdateParams (authority-guarded), migrations; CalculateBaseFee calls no store writer")
@@ -322,6 +323,14 @@ func runC17(r *Run) {
 			r.Check(w == nil && len(lessPossible) > 0 && tm && !um, "R3", fmt.Sprintf("%s#decrease-only-below-target-%d", fnID(cb), i+1), P.Pos(instrPos(ri.ret)), "the decreasing result is returned only where used < target is possible; delta = target − used",
 				fmt.Sprintf("the decreasing result is reachable where the gas figure is not below the target, or its delta is not target − used (target−used: %v, used−target: %v)", tm, um), P.witness(w)...)
 		}
+	}
+
+	// ---------- R5: arbitrary precision ----------
+	r.Rule("R5", "SHAPE.arbitrary-precision: CalculateBaseFee and the feemarket-keeper functions it calls contain no machine-word integer multiplication, shift or addition — parent base fee × gas delta exceeds 64 bits for fees the chain can reach, and a wrapped product lowers the fee in an over-full block; the only machine-word arithmetic is the guarded subtraction used − target / target − used (R3)")
+	{
+		mw := machineWordOps(P, cb, 3, map[token.Token]bool{token.MUL: true, token.SHL: true, token.ADD: true}, map[*ssa.Function]bool{})
+		r.Check(len(mw) == 0, "R5", fnID(cb)+"#arbitrary-precision", P.Pos(fnPos(cb)), "no machine-word multiplication/shift/addition on the way to the next base fee",
+			fmt.Sprintf("machine-word arithmetic on the way to the next base fee (%s): whether it can wrap depends on run-time magnitudes (base fee × gas delta needs up to 128 bits); the EIP-1559 formula is defined over unbounded integers", strings.Join(mw, "; ")))
 	}
 
 	// ---------- R4: the inputs of the next base fee are recorded on every block and survive a genesis restart ----------
